@@ -918,11 +918,11 @@ def main():
 
     nhist = args.budget("histories", 6, 30)
     opts = {
-        "steps": args.budget("steps", 5, 8),
-        "crash": args.budget("crash", 5, 40),
+        "steps": args.budget("steps", 4, 8),
+        "crash": args.budget("crash", 4, 40),
         "crash_steps": args.budget("crash_steps", 1, 2),
-        "crash_per_step": args.budget("crash_per_step", 5, 24),
-        "damage": args.budget("damage", 4, 7),
+        "crash_per_step": args.budget("crash_per_step", 4, 24),
+        "damage": args.budget("damage", 3, 7),
         "sabotage": bool(int(args.extra.get("sabotage", 0))),
     }
     jobs = int(args.extra.get("jobs", min(12, os.cpu_count() or 4)))
@@ -964,8 +964,8 @@ def main():
         floors = [("crash_points_killed", 300), ("damage_cases", 60), ("recovery_compared", 350), ("recovery_succeeded", 250),
                   ("recovery_outputs_compared", 3000), ("crash_points_killed_classes", 6), ("damaged_file_classes", 4)]
     else:
-        floors = [("crash_points_killed", 9), ("damage_cases", 7), ("recovery_compared", 15), ("recovery_succeeded", 12),
-                  ("recovery_outputs_compared", 250), ("crash_points_killed_classes", 2), ("damaged_file_classes", 2)]
+        floors = [("crash_points_killed", 8), ("damage_cases", 6), ("recovery_compared", 12), ("recovery_succeeded", 10),
+                  ("recovery_outputs_compared", 200), ("crash_points_killed_classes", 2), ("damaged_file_classes", 2)]
     run.finish(floors)
 
 
